@@ -43,64 +43,90 @@ Lemma enum_addr : forall pt items v,
   = map (fun it => pt ++ [it_c it; it_j it]) items.
 Proof. induction items as [|it items IH]; intros v; cbn; auto. rewrite IH. reflexivity. Qed.
 
-Lemma iter_plain_facts : forall x e body pt es j z,
-  let items := fst (iter_plain x e body es j z) in
-  Forall (fun it => it_pre it = [] /\ it_post it = []
+Definition noall (z : thr) : Prop := lb_all (th_lab z) = [].
+
+Lemma iter_plain_facts : forall x e (body : body_t) pt es j z,
+  (forall c e' z', noall z' -> noall (snd (body c e' z'))) -> noall z ->
+  let items := fst (iter_plain true x e body es j z) in
+  Forall (fun it => it_pre it = [] /\ it_post it = [] /\ noall (it_zin it)
                     /\ (exists t, In (it_c it, t) es /\ it_env it = set_nth x t e)
                     /\ it_body it = fst (body (it_c it) (it_env it) (it_zin it))) items
   /\ children pt items = map (fun ct => (pt ++ [fst ct], set_nth x (snd ct) e)) (offered es)
   /\ map (fun it => pt ++ [it_c it; it_j it]) items
      = flat_map (fun jc : Z * (Z * tree) => if is_empty 0 (snd (snd jc)) then []
-                            else [addr pt (fst (snd jc)) (Some (fst jc))]) (enumZ es j).
+                            else [addr pt (fst (snd jc)) (Some (fst jc))]) (enumZ es j)
+  /\ noall (snd (iter_plain true x e body es j z)).
 Proof.
-  intros x e body pt es. induction es as [|[c t] es IH]; intros j z.
+  intros x e body pt es j z Hb. revert j z. induction es as [|[c t] es IH]; intros j z Hz.
   - cbn. repeat split; auto.
-  - cbn [iter_plain enumZ flat_map fst snd]. unfold offered, present. cbn [filter snd].
+  - cbn [iter_plain enumZ flat_map fst snd andb]. unfold offered, present. cbn [filter snd].
     destruct (is_empty 0 t) eqn:E; cbn [negb].
-    + destruct (IH (j + 1) z) as (I1 & I2 & I3). split; [|split]; auto.
-      eapply Forall_impl; [|exact I1]. intros it (A & B & (t' & Hin & C) & D).
+    + destruct (IH (j + 1) z Hz) as (I1 & I2 & I3 & I4). split; [|split; [|split]]; auto.
+      eapply Forall_impl; [|exact I1]. intros it (A & B & N & (t' & Hin & C) & D).
       repeat split; auto. exists t'. split; auto. right. exact Hin.
-    + cbn [fst].
-      destruct (IH (j + 1) (snd (body c (set_nth x t e) z))) as (I1 & I2 & I3). split; [|split].
+    + cbn [fst snd].
+      destruct (IH (j + 1) (snd (body c (set_nth x t e) z)) (Hb _ _ _ Hz)) as (I1 & I2 & I3 & I4).
+      split; [|split; [|split]]; auto.
       * constructor.
         { cbn. repeat split; auto. exists t. split; auto. }
-        { eapply Forall_impl; [|exact I1]. intros it (A & B & (t' & Hin & C) & D).
+        { eapply Forall_impl; [|exact I1]. intros it (A & B & N & (t' & Hin & C) & D).
           repeat split; auto. exists t'. split; auto. right. exact Hin. }
       * cbn [children map it_c it_env fst snd]. f_equal. exact I2.
       * cbn [map it_c it_j app]. f_equal. exact I3.
 Qed.
 
 Definition plain_level (L : level) : bool :=
-  negb (l_pop L) && match l_src L with SFib _ => true | SAnd _ _ => false end.
+  negb (l_pop L) && negb (l_ufmt L)
+  && match l_src L with SFib _ => true | SAnd _ _ => false end
+  && match l_proj L with None => true | Some _ => false end.
 
-Lemma plain_level_spec : forall n tr zshape nz i x lv' pt e z (body : body_t),
-  length pt = i ->
-  (forall c t z', In (c, t) (sub e x) ->
-     spec n (S i) lv' (pt ++ [c]) (set_nth x t e) (fst (body c (set_nth x t e) z'))) ->
-  spec n i ({| l_pop := false; l_src := SFib x |} :: lv') pt e
-       (fst (run_level tr zshape nz i {| l_pop := false; l_src := SFib x |} body e z)).
+Lemma lab_reg_noall : forall ls r, lb_all ls = [] ->
+  fst (lab_reg ls r) = [] /\ lb_all (snd (lab_reg ls r)) = [].
 Proof.
-  intros n tr zshape nz i x lv' pt e z body Lpt Hbody.
-  unfold run_level. cbn [l_pop l_src fst].
-  destruct (iter_plain_facts x e body pt (sub e x) 0 z) as (F1 & F2 & F3).
-  set (items := fst (iter_plain x e body (sub e x) 0 z)) in *.
+  intros ls r H. unfold lab_reg. destruct (memZ r (lb_reg ls)); cbn; auto.
+  rewrite H. cbn. auto.
+Qed.
+
+Lemma plain_level_spec : forall n tr zshape nz i x zu sh lv' pt e z (body : body_t),
+  length pt = i -> noall z ->
+  (forall c e' z', noall z' -> noall (snd (body c e' z'))) ->
+  (forall c t z', noall z' -> In (c, t) (sub e x) ->
+     spec n (S i) lv' (pt ++ [c]) (set_nth x t e) (fst (body c (set_nth x t e) z'))) ->
+  let L := {| l_pop := false; l_src := SFib x; l_ufmt := false; l_zufmt := zu; l_proj := None;
+              l_shape := sh |} in
+  spec n i (L :: lv') pt e (fst (run_level tr zshape nz i L body e z))
+  /\ noall (snd (run_level tr zshape nz i L body e z)).
+Proof.
+  intros n tr zshape nz i x zu sh lv' pt e z body Lpt Hz Hbn Hbody L.
+  unfold run_level. cbn [l_pop l_src l_proj l_ufmt L negb fst snd].
+  destruct (lab_reg_noall (th_lab z) (Z.of_nat i) Hz) as [R1 R2]. rewrite R1.
+  assert (Hz1 : noall (with_lab z (snd (lab_reg (th_lab z) (Z.of_nat i))))) by exact R2.
+  destruct (iter_plain_facts x e body pt (sub e x) 0 _ Hbn Hz1) as (F1 & F2 & F3 & F4).
+  set (res := iter_plain true x e body (sub e x) 0 (with_lab z (snd (lab_reg (th_lab z) (Z.of_nat i))))) in *.
+  set (items := fst res) in *.
+  split; [|exact F4].
   assert (Hsimple : Forall (fun it => it_pre it = [] /\ it_post it = []) items).
   { eapply Forall_impl; [|exact F1]. intros it (A & B & _). auto. }
+  cbn [reg_events map].
+  change (EReg (Z.of_nat i) :: nil ++ flat_items (Z.of_nat i) items ++ [] ++ [EEnd (Z.of_nat i)])
+    with ([EReg (Z.of_nat i)] ++ flat_items (Z.of_nat i) items ++ [] ++ [EEnd (Z.of_nat i)]).
   apply GL; auto.
-  - eapply Forall_impl; [|exact F1]. intros it (A & B & (t & Hin & C) & D).
+  - eapply Forall_impl; [|exact F1]. intros it (A & B & N & (t & Hin & C) & D).
     unfold item_ok. rewrite A, B, D, C. split; [constructor|split; [constructor|]].
-    apply Hbody. exact Hin.
-  - unfold kids. cbn [ref_elems l_src fst snd]. rewrite F2, map_map. reflexivity.
+    apply Hbody; auto.
+  - unfold kids, ref_elems, ref_off, offered_f, pcoord. cbn [l_src l_ufmt l_proj L fst snd].
+    rewrite F2, map_map. reflexivity.
   - rewrite app_nil_r. apply (ltrace_simple i items Hsimple 0 None 0 0).
   - rewrite app_nil_r. intros kind label. cbv zeta.
     destruct (ltrace_simple i items Hsimple 0 None kind label) as [-> _].
     split.
     + destruct ((K_ITER =? kind) && (0 =? label)) eqn:E; [|reflexivity].
       unfold stampR. assert (kind =? K_ITER = true) as -> by lia. apply chain_enum.
-    + intros Hsc. unfold addr_scope, is_zside in Hsc. unfold expect_at. cbn [l_pop l_src].
+    + intros Hsc. unfold addr_scope, is_zside in Hsc. unfold expect_at.
+      cbn [l_pop l_src l_proj l_ufmt L andb orb negb].
       destruct (kind =? K_ITER) eqn:EK.
       * rewrite (Z.eqb_sym K_ITER), EK. cbn [andb]. rewrite (Z.eqb_sym 0).
-        destruct (label =? 0); cbn [negb]; [|reflexivity].
+        destruct (label =? 0); cbn [negb orb]; [|reflexivity].
         rewrite enum_addr. exact F3.
       * rewrite (Z.eqb_sym K_ITER), EK. cbn [andb map].
         destruct (kind =? K_INT); [reflexivity|]. destruct (kind =? K_POP); [reflexivity|].
@@ -110,28 +136,40 @@ Qed.
 (* every nest of plain `for` levels meets the specification: the counter vector keeps its shape,
    ranks are registered in order 0,1,2,..., stamps are ordered, and the rows of the iter traces
    are exactly the reference iteration space with storage positions *)
-Theorem plain_nest_spec : forall n tr zshape nz m lv, forallb plain_level lv = true ->
-  forall i pt e z, length pt = i -> spec n i lv pt e (fst (run tr zshape nz m lv i pt e z)).
+Theorem plain_nest_spec_gen : forall n tr zshape nz m lv, forallb plain_level lv = true ->
+  forall i pt e z, length pt = i -> noall z ->
+  spec n i lv pt e (fst (run tr zshape nz m lv i pt e z))
+  /\ noall (snd (run tr zshape nz m lv i pt e z)).
 Proof.
-  intros n tr zshape nz m lv. induction lv as [|L lv IH]; intros Hpl i pt e z Lpt.
-  - cbn [run fst]. intros k P st Hsh. cbv zeta. cbn [dr exec fold_left emits].
+  intros n tr zshape nz m lv. induction lv as [|L lv IH]; intros Hpl i pt e z Lpt Hz.
+  - cbn [run fst snd]. split.
+    2:{ unfold leaf_update, noall in *. destruct (th_z z) as [[v|es]|]; auto.
+        destruct (skip_pt m pt); auto. }
+    intros k P st Hsh. cbv zeta. cbn [dr exec fold_left emits].
     pose proof Hsh as (_ & Hik & _).
     replace (Nat.max k (i + 0)) with k by lia. split; [exact Hsh|split; [reflexivity|]].
     intros kk. exists []. rewrite hdrs_same. split; [reflexivity|]. split; [reflexivity|].
     intros Hge. unfold deep_ok. cbv zeta. cbn [dr].
     split; [constructor|split; [reflexivity|split; [|auto]]]. intros _ Hr. lia.
   - cbn [forallb] in Hpl. apply andb_true_iff in Hpl. destruct Hpl as [HL Hpl].
-    destruct L as [pop s]. unfold plain_level in HL. cbn [l_pop l_src] in HL.
-    destruct pop; [discriminate|]. destruct s as [x|x y]; [|discriminate].
+    destruct L as [pop s u zu pj sh]. unfold plain_level in HL. cbn [l_pop l_src l_ufmt l_proj] in HL.
+    destruct pop; [discriminate|]. destruct u; [discriminate|].
+    destruct s as [x|x y]; [|discriminate]. destruct pj; [discriminate|].
     cbn [run]. apply plain_level_spec; auto.
-    intros c t z' _. apply IH; auto. rewrite app_length. cbn. lia.
+    + intros c e' z' Hz'. apply IH; auto. rewrite app_length. cbn. lia.
+    + intros c t z' Hz' _. apply IH; auto. rewrite app_length. cbn. lia.
 Qed.
+
+Theorem plain_nest_spec : forall n tr zshape nz m lv, forallb plain_level lv = true ->
+  forall i pt e z, length pt = i -> noall z ->
+  spec n i lv pt e (fst (run tr zshape nz m lv i pt e z)).
+Proof. intros. apply plain_nest_spec_gen; auto. Qed.
 
 (* read at the top of a collection session: loop_order = 0..d-1 for the d levels entered, and every
    registered trace file = [header if its rank was reached] ++ rows meeting rows_ok *)
 Theorem plain_nest_top : forall n tr zshape nz m lv keys m0 e z,
   forallb plain_level lv = true ->
-  let evs := fst (run tr zshape nz m lv 0 [] e z) in
+  let evs := fst (run tr zshape nz m lv 0 [] e {| th_z := z; th_lab := lab0 |}) in
   let st' := exec n (init_state keys true m0) evs in
   let d := dr lv [([], e)] in
   m_lo st' = iota d
@@ -141,7 +179,8 @@ Proof.
   intros n tr zshape nz m lv keys m0 e z Hpl evs st' d.
   assert (Hsh : shape 0 0 [] [] (init_state keys true m0)).
   { unfold shape. cbn. repeat split; auto. }
-  destruct (plain_nest_spec n tr zshape nz m lv Hpl 0 [] e z eq_refl 0%nat [] _ Hsh) as (S1 & _ & E1).
+  destruct (plain_nest_spec n tr zshape nz m lv Hpl 0 [] e {| th_z := z; th_lab := lab0 |} eq_refl eq_refl
+              0%nat [] _ Hsh) as (S1 & _ & E1).
   cbn [Nat.max plus] in S1, E1. fold evs in S1, E1. fold st' in S1. fold d in S1, E1.
   split; [apply S1|]. intros kk Hin. destruct (E1 kk) as (data & Ed & Od). exists data.
   split; auto. unfold st'. rewrite content_is_emits by auto. rewrite Ed. reflexivity.
